@@ -43,7 +43,7 @@ CONFIGS = [dict(tcp=True, naddr=1), dict(tcp=True, naddr=2), dict(tcp=True, nadd
 OPS = [((3, b"k", None), b"VALUE k 0 1\r\nv\r\nEND\r\n"), ((0, 0, b"k", b"v", 0, False, None), b"STORED\r\n"),
        ((9, b"k", False), b"DELETED\r\n"), ((0, 0, b"k", b"v", 0, True, None), None),
        ((1, [(b"a", b"1"), (b"b", b"2")], 0, False, None), b"STORED\r\nSTORED\r\n"), ((15,), b"VERSION 1\r\n"),
-       ((7, False, [b"a", b"b"]), b"VALUE a 0 1\r\nx\r\nEND\r\n"), ((17,), None)]
+       ((7, False, [b"a", b"b"]), b"VALUE a 0 1\r\nx\r\nEND\r\n"), ((17,), None), ((23, 64), b"OK\r\n"), ((24, True), b"ERROR\r\n")]
 FOLLOW = [((3, b"k", None), b"END\r\n"), ((13, b"k", 0, False), b"TOUCHED\r\n")]
 
 
@@ -154,7 +154,8 @@ def search(ctx):
                         if bad and world.bounds[0][0] >= len([x for x in sc if True]) - 0:
                             pass
         # fallback clause
-        if why is None and c.get("tcp") and sc and len(sc) >= 2 and all(isinstance(x, tuple) for x in sc[1:]) and sc[0] == 0 and not ch:
+        # (the scripted answer to shutdown is ERROR - shutdown not enabled -, so that call raises whatever address is used)
+        if why is None and ops[0][0] != 24 and c.get("tcp") and sc and len(sc) >= 2 and all(isinstance(x, tuple) for x in sc[1:]) and sc[0] == 0 and not ch:
             j = len(sc) - 1
             if j < c.get("naddr", 1):
                 conn = [e for e in trace if e[0] == 6]
